@@ -50,6 +50,10 @@ func scenarioC08(rc *RunCtx) *Violation {
 	// With AllowOverwrite a build may replace its own inputs by its outputs, after which
 	// "the same inputs" no longer holds for repeated and sibling builds.
 	o.AllowOverwrite = false
+	// Options naming built-in globals (Pure, dotted Define) are used by SIBLING builds only:
+	// if they leak through process-global state, the build under test changes.
+	o.Pure = 0
+	o.MetaAbs = false // absolute metafile paths depend on the location by design
 	if o.Inject {
 		p.Extra["src/inject.js"] = "export let injected = 'INJ';\nconsole.log('inject');\n"
 	}
@@ -59,6 +63,7 @@ func scenarioC08(rc *RunCtx) *Violation {
 	o2 := GenOptions(g, p2)
 	o2.Inject = false
 	o2.Write = false
+	o2.Pure = 1 + g.n(3)
 
 	mkOpts := func(pp *Project) api.BuildOptions {
 		b := o.Build(pp)
